@@ -56,95 +56,151 @@ def _blocks(node):
                 yield b, label
 
 
+def _slot(e: ast.AST) -> Optional[str]:
+    """a storage slot: a local scalar `name`, or a constant element `name[i]` of a local list"""
+    if isinstance(e, ast.Name):
+        return e.id
+    if isinstance(e, ast.Subscript) and isinstance(e.value, ast.Name):
+        i = _const_index(e)
+        if i is not None:
+            return f"{e.value.id}[{i}]"
+    return None
+
+
+def _slot_index(s: Optional[str]) -> Optional[int]:
+    if s and s.endswith("]") and "[" in s:
+        try:
+            return int(s[s.index("[") + 1:-1])
+        except ValueError:
+            return None
+    return None
+
+
+def _slot_base(s: str) -> str:
+    return s.split("[")[0]
+
+
+def _virtual_assigns(st):
+    """_simple_assigns, with `B = [e0, e1]` also read as B[0] = e0; B[1] = e1"""
+    out = []
+    for tg, vl in _simple_assigns(st):
+        if isinstance(tg, ast.Name) and isinstance(vl, (ast.List, ast.Tuple)) and vl.elts:
+            for i, e in enumerate(vl.elts):
+                sub = ast.Subscript(value=ast.Name(id=tg.id, ctx=ast.Load()), slice=ast.Constant(value=i), ctx=ast.Store())
+                out.append((ast.copy_location(sub, tg), e))
+        else:
+            out.append((tg, vl))
+    return out
+
+
+def discover_pairs(node: ast.FunctionDef):
+    """The bracket is found by role, not by name: ahead of the main loop two slots B_i are initialised with `fn(A_i, ...)`,
+    fn a parameter of the function; inside a loop one statement sets Y = fn(X, ...).  Returns (fn, [(A_0, B_0), (A_1, B_1)],
+    [(X, Y) evaluation statements]) or None."""
+    params = {a.arg for a in node.args.posonlyargs + node.args.args + node.args.kwonlyargs}
+    in_loop = set()
+    for n in ast.walk(node):
+        if isinstance(n, (ast.For, ast.While)):
+            for m in ast.walk(n):
+                if m is not n:
+                    in_loop.add(id(m))
+    inits, evals = [], []
+    for st in ast.walk(node):
+        if not isinstance(st, ast.Assign):
+            continue
+        for tg, vl in _virtual_assigns(st):
+            if isinstance(vl, ast.Call) and isinstance(vl.func, ast.Name) and vl.func.id in params and vl.args \
+                    and _slot(vl.args[0]) is not None and _slot(tg) is not None:
+                (evals if id(st) in in_loop else inits).append((vl.func.id, _slot(vl.args[0]), _slot(tg), st))
+    fns = {x[0] for x in inits}
+    if len(inits) != 2 or len(fns) != 1:
+        return None
+    fn = next(iter(fns))
+    return fn, [(a, b) for _, a, b, _ in inits], [(x, y, st) for f_, x, y, st in evals if f_ == fn], [st for *_, st in inits]
+
+
 def paired_update_rule(ctx, rule: str, f, A: str, B: str, X: str, Y: str, fn_param: str, min_blocks: int):
-    """A[i] and B[i] are always stored together in one block, from X[k] and Y[k] with one k; B is initialised with
-    fn(A[i]) slot by slot; Y[k] = fn(X[k]) is established by a statement that dominates the paired stores with no write to X
-    in between; difference quotients (Y[a]-Y[b])/(X[c]-X[d]) use (a,b) == (c,d)."""
+    """Bracket ends (position A_i, function value B_i) are always stored together in one block, from a source pair (X, Y)
+    for which Y = fn(X) was established; B_i is initialised with fn(A_i) slot by slot; the evaluation statement dominates
+    the paired stores with no write to X in between; difference quotients (Y[a]-Y[b])/(X[c]-X[d]) use (a,b) == (c,d).
+    A, B, X, Y, fn_param are only the names used in messages when the roles cannot be discovered."""
     node = f.node
     tag = f.name
     nblocks = 0
-    # the source pair and the function parameter are local names, not anchors: infer them from the stores into A and B
-    def _sources(target):
-        names = set()
-        for st in ast.walk(node):
-            for tg, vl in _simple_assigns(st):
-                if _elem(tg, target) is not None and isinstance(vl, ast.Subscript) and isinstance(vl.value, ast.Name):
-                    names.add(vl.value.id)
-        return names
-    sx, sy = _sources(A), _sources(B)
-    if len(sx) == 1:
-        X = next(iter(sx))
-    if len(sy) == 1:
-        Y = next(iter(sy))
-    for st in ast.walk(node):
-        if isinstance(st, ast.Assign) and len(st.targets) == 1 and isinstance(st.targets[0], ast.Name) and st.targets[0].id == B \
-                and isinstance(st.value, ast.List) and st.value.elts and all(
-                    isinstance(e, ast.Call) and isinstance(e.func, ast.Name) for e in st.value.elts):
-            fns = {e.func.id for e in st.value.elts}
-            if len(fns) == 1:
-                fn_param = next(iter(fns))
+    found = discover_pairs(node)
+    if found is None:
+        ctx.unsure(rule, f"{tag}[bracket]", "two bracket ends initialised with fn(end, ...) ahead of the iteration were not found", f.loc())
+        return 0, 0
+    fn_param, pairs, evals, init_sts = found
+    a_slots = [a for a, _ in pairs]
+    b_slots = [b for _, b in pairs]
+    A, B = _slot_base(a_slots[0]), _slot_base(b_slots[0])
+    A_lbl = A if _slot_base(a_slots[1]) == A else "/".join(a_slots)
+    B_lbl = B if _slot_base(b_slots[1]) == B else "/".join(b_slots)
+    ctx.ok(rule, f"{tag}[{B} initialisation]", f"each bracket end's function value starts as {fn_param}(end, ...): "
+           + "; ".join(f"{b} = {fn_param}({a}, ...)" for a, b in pairs), f.loc(init_sts[0]))
+    x_eval = {x for x, _, _ in evals}
+    y_eval = {y for _, y, _ in evals}
+    X = _slot_base(next(iter(x_eval))) if x_eval else X
+    Y = _slot_base(next(iter(y_eval))) if y_eval else Y
+    updated = set()
+    loop_stmts = {id(m) for n in ast.walk(node) if isinstance(n, (ast.For, ast.While)) for m in ast.walk(n) if m is not n}
     for blk, label in _blocks(node):
         a_st: Dict[int, ast.AST] = {}
         b_st: Dict[int, ast.AST] = {}
         for st in blk:
+            if st in init_sts or id(st) not in loop_stmts:
+                continue        # ahead of the iteration the bracket is being set up, not updated
             for tg, vl in _simple_assigns(st):
-                ia, ib = _elem(tg, A), _elem(tg, B)
-                if ia is not None:
-                    a_st[ia] = ast.copy_location(ast.Assign(targets=[tg], value=vl), st)
-                if ib is not None:
-                    b_st[ib] = ast.copy_location(ast.Assign(targets=[tg], value=vl), st)
+                s_ = _slot(tg)
+                if s_ in a_slots:
+                    a_st[a_slots.index(s_)] = ast.copy_location(ast.Assign(targets=[tg], value=vl), st)
+                if s_ in b_slots:
+                    b_st[b_slots.index(s_)] = ast.copy_location(ast.Assign(targets=[tg], value=vl), st)
         if not a_st and not b_st:
             continue
         nblocks += 1
         line = (list(a_st.values()) + list(b_st.values()))[0]
-        where = f"{tag}[{A}/{B} update {label}]"
+        where = f"{tag}[{A_lbl}/{B_lbl} update {label}]"
         if set(a_st) != set(b_st):
-            ctx.bad(rule, where, f"the block stores {A}{sorted(a_st)} but {B}{sorted(b_st)}: position and function value of a "
-                    "bracket end are no longer updated together, so the sign test on the bracket uses a value that belongs to the other end",
+            ctx.bad(rule, where, f"the block stores position end(s) {sorted(a_st)} but function-value end(s) {sorted(b_st)}: position and "
+                    "function value of a bracket end are no longer updated together, so the sign test on the bracket uses a value that "
+                    "belongs to the other end",
                     f.loc(line), derived="; ".join(ast.unparse(s) for s in list(a_st.values()) + list(b_st.values())))
             continue
         ok = True
         detail = []
         for i in sorted(a_st):
-            ka, kb = _elem(a_st[i].value, X), _elem(b_st[i].value, Y)
+            updated.add(i)
+            sa, sb = _slot(a_st[i].value), _slot(b_st[i].value)
             detail.append(f"{ast.unparse(a_st[i])}; {ast.unparse(b_st[i])}")
-            if ka is None or kb is None:
+            if sa is None or sb is None or _slot_base(sa) != X or _slot_base(sb) != Y:
                 ok = None if ok else ok
-            elif ka != kb:
+            elif (sa, sb) in {(x, y) for x, y, _ in evals}:
+                pass
+            elif _slot_index(sa) is not None and _slot_index(sa) == _slot_index(sb):
+                pass        # parallel histories rolled together: same position in both
+            else:
                 ok = False
-        want_slot = _slot_from_guard(blk, node, A, B, X, Y)
+        want_slot = _slot_from_guard(blk, node, a_slots, b_slots, X, Y)
         if want_slot is not None and ok:
             ctx.expect(set(a_st) == {want_slot}, rule, where + "[slot]",
                        f"an iterate beyond end i replaces end i; a sign change between end i and the iterate replaces the other end",
                        f.loc(line), derived="; ".join(detail), required=f"slot {want_slot}")
         if ok is None:
-            ctx.unsure(rule, where, f"stores are not of the form {A}[i] = {X}[k]; {B}[i] = {Y}[k]", f.loc(line), derived="; ".join(detail))
+            ctx.unsure(rule, where, f"stores are not of the form <end position> = {X}[k]; <end value> = {Y}[k]", f.loc(line),
+                       derived="; ".join(detail))
         else:
-            ctx.expect(ok, rule, where, f"{A}[i] and {B}[i] are stored together from {X}[k] and {Y}[k] with the same k",
+            ctx.expect(ok, rule, where, f"position and function value of a bracket end are stored together from {X} and {Y} at the same k",
                        f.loc(line), derived="; ".join(detail))
-    # initialisation of B
-    inits = [st for st in ast.walk(node) if isinstance(st, ast.Assign) and len(st.targets) == 1
-             and isinstance(st.targets[0], ast.Name) and st.targets[0].id == B]
-    okinit = len(inits) == 1 and isinstance(inits[0].value, ast.List)
-    if okinit:
-        for i, e in enumerate(inits[0].value.elts):
-            okinit = okinit and isinstance(e, ast.Call) and isinstance(e.func, ast.Name) and e.func.id == fn_param \
-                and len(e.args) >= 1 and _elem(e.args[0], A) == i
-    ctx.expect(okinit, rule, f"{tag}[{B} initialisation]", f"{B}[i] starts as {fn_param}({A}[i], ...) for each slot",
-               f.loc(inits[0]) if inits else f.loc(), derived=ast.unparse(inits[0]) if inits else "missing")
-    # evaluation statement establishing Y[k] = fn(X[k])
+    # evaluation statement establishing Y = fn(X)
     cfg = CFG(node, exceptions=False)
-    evals = []
-    for st in cfg.stmts:
-        if isinstance(st, ast.Assign) and len(st.targets) == 1 and _elem(st.targets[0], Y) is not None \
-                and isinstance(st.value, ast.Call) and isinstance(st.value.func, ast.Name) and st.value.func.id == fn_param:
-            evals.append(st)
-    okev = len(evals) == 1 and len(evals[0].value.args) >= 1 and _elem(evals[0].value.args[0], X) == _elem(evals[0].targets[0], Y)
-    ctx.expect(okev, rule, f"{tag}[{Y} evaluation]", f"one statement sets {Y}[k] = {fn_param}({X}[k], ...) with the same k",
-               f.loc(evals[0]) if evals else f.loc(), derived="; ".join(ast.unparse(e) for e in evals) or "missing")
+    okev = len(evals) == 1 and (_slot_index(evals[0][0]) == _slot_index(evals[0][1]))
+    ctx.expect(okev, rule, f"{tag}[{Y} evaluation]", f"one statement in the iteration sets {Y}[k] = {fn_param}({X}[k], ...) with the same k",
+               f.loc(evals[0][2]) if evals else f.loc(), derived="; ".join(ast.unparse(e[2]) for e in evals) or "missing")
     if okev:
-        ev = evals[0]
-        k = _elem(ev.targets[0], Y)
+        xs, ys, ev = evals[0]
+        ev = next((st for st in cfg.stmts if st is ev), ev)
 
         def writes_X(st):
             if isinstance(st, (ast.Assign, ast.AugAssign)):
@@ -159,7 +215,7 @@ def paired_update_rule(ctx, rule: str, f, A: str, B: str, X: str, Y: str, fn_par
                 return True
             return False
         muts = [st for st in cfg.stmts if writes_X(st)]
-        users = [st for st in cfg.stmts if any(_elem(tg, B) is not None and _elem(vl, Y) == k for tg, vl in _simple_assigns(st))]
+        users = [st for st in cfg.stmts if any(_slot(tg) in b_slots and _slot(vl) == ys for tg, vl in _simple_assigns(st))]
         stale = []
         for u in users:
             if not cfg.dominates(ev, u):
@@ -169,9 +225,12 @@ def paired_update_rule(ctx, rule: str, f, A: str, B: str, X: str, Y: str, fn_par
                     # a write to X after the evaluation can reach the use without a fresh evaluation
                     if cfg.path_avoiding(ev, m, set()) and _loop_local_path(cfg, ev, m, u):
                         stale.append(f"line {u.lineno}: {X} is written at line {m.lineno} between the evaluation and this use")
-        ctx.expect(not stale and bool(users), rule, f"{tag}[{Y}[{k}] is current when stored]",
-                   f"every `{B}[i] = {Y}[{k}]` is dominated by the evaluation of {Y}[{k}] at {X}[{k}] with no write to {X} in between",
+        ctx.expect(not stale and bool(users), rule, f"{tag}[{ys} is current when stored]",
+                   f"every store of {ys} into a bracket end's function value is dominated by its evaluation at {xs} with no write to {X} "
+                   "in between",
                    f.loc(ev), derived="; ".join(stale) or f"{len(users)} stores, {len(muts)} writes to {X}")
+    ctx.expect(updated == {0, 1}, rule, f"{tag}[both ends move]", "each bracket end is updated somewhere in the iteration", f.loc(),
+               derived=f"ends updated: {sorted(updated)}")
     # difference quotients
     nq = 0
     for n in ast.walk(node):
@@ -192,8 +251,8 @@ def _loop_local_path(cfg: CFG, ev, m, u) -> bool:
     return cfg.path_avoiding(ev, m, set()) and cfg.path_avoiding(m, u, {ev})
 
 
-def _slot_from_guard(blk, func_node, A, B, X, Y) -> Optional[int]:
-    """slot the guard of this block implies: X[k] < A[i] or X[k] > A[i] -> i;  B[i] * Y[k] < 0 -> 1 - i"""
+def _slot_from_guard(blk, func_node, a_slots, b_slots, X, Y) -> Optional[int]:
+    """end the guard of this block implies: X[k] < A_i or X[k] > A_i -> i;  B_i * Y[k] < 0 -> 1 - i"""
     owner = None
     for n in ast.walk(func_node):
         if isinstance(n, ast.If) and n.body is blk:
@@ -202,12 +261,14 @@ def _slot_from_guard(blk, func_node, A, B, X, Y) -> Optional[int]:
         return None
     t = owner.test
     l, r = t.left, t.comparators[0]
+    sx = lambda e: _slot(e) is not None and _slot_base(_slot(e)) == X  # noqa: E731
+    sy = lambda e: _slot(e) is not None and _slot_base(_slot(e)) == Y  # noqa: E731
     if isinstance(t.ops[0], (ast.Lt, ast.Gt, ast.LtE, ast.GtE)):
-        if _elem(l, X) is not None and _elem(r, A) is not None:
-            return _elem(r, A)
+        if sx(l) and _slot(r) in a_slots:
+            return a_slots.index(_slot(r))
         if isinstance(l, ast.BinOp) and isinstance(l.op, ast.Mult) and isinstance(r, ast.Constant) and r.value == 0 \
                 and isinstance(t.ops[0], ast.Lt):
             for a, b in ((l.left, l.right), (l.right, l.left)):
-                if _elem(a, B) is not None and _elem(b, Y) is not None:
-                    return 1 - _elem(a, B)
+                if _slot(a) in b_slots and sy(b):
+                    return 1 - b_slots.index(_slot(a))
     return None
